@@ -143,6 +143,35 @@ theorem free_tokens_nonneg (c : Cfg) (now admin : Nat) (ops : List (List Nat × 
     0 ≤ (run c (init now admin) ops).base.bal a - (run c (init now admin) ops).frozen a := by
   have := frozen_le_balance c now admin ops a; omega
 
+/-- the code's comment "frozen tokens cannot be greater than total balance" is true, so the
+unchecked `total_balance - frozen_tokens` of `get_free_tokens` is a non-negative i128 and never
+panics (given the invariants, which hold in every reachable state) -/
+theorem free_tokens_no_panic {U : List Nat} (hn : U.Nodup) {s : State} (hi : Inv U s.base)
+    (hf : FrozenInv s) (a : Nat) : getFreeTokens s a = .ok (s.base.bal a - s.frozen a) := by
+  unfold getFreeTokens
+  apply chk_in
+  have h1 := hf a; have h2 := bal_le_supply hn hi a; have h3 := hi.supHi
+  unfold in128 I128_MIN; constructor <;> omega
+
+/-- the "unfreeze if needed" block of `forced_transfer` / `burn` never panics in its unchecked
+subtractions once the balance check `amount ≤ balance` has passed -/
+theorem supervisory_unfreeze_no_panic {U : List Nat} (hn : U.Nodup) {s : State} (hi : Inv U s.base)
+    (hf : FrozenInv s) (a : Nat) (amt : Int) (hle : amt ≤ s.base.bal a) :
+    ∃ s', unfreezeFor s a amt = .ok s' := by
+  unfold unfreezeFor
+  rw [free_tokens_no_panic hn hi hf a, ok_bind]
+  have h1 := hf a; have h2 := bal_le_supply hn hi a; have h3 := hi.supHi
+  split
+  · rename_i hlt
+    have r1 : in128 (amt - (s.base.bal a - s.frozen a)) := by
+      unfold in128 I128_MIN; constructor <;> omega
+    rw [chk_in r1, ok_bind]
+    have r2 : in128 (s.frozen a - (amt - (s.base.bal a - s.frozen a))) := by
+      unfold in128 I128_MIN; constructor <;> omega
+    rw [chk_in r2, ok_bind]
+    exact ⟨_, rfl⟩
+  · exact ⟨_, rfl⟩
+
 /-! ### supervisory operations unfreeze only the minimum -/
 
 /-- **forced_unfreezes_minimum**: after a forced transfer of `amt` out of `f`,
